@@ -59,9 +59,7 @@ def main(chk, a, tier, seed):
                          "replay_dir": replay_dir, "budget_s": budget, "repo_rev": rev, "det_check": 10 if tier == "quick" else 40,
                          "replay": os.path.abspath(a.replay) if a.replay else "", "work_dir": wd})
         outs, bad = chk.launch(binp, jobs, work, 6 * 3600 if tier == "thorough" else 1500)
-        src, so = san.wait(), san.stdout.read()
-        if src != 0:
-            chk.die("translation sanity failed: the instrumented copy does not pass the repository's own fast tests\n" + so[-3000:])
+        chk.sanity_verdict(san, sc)
         if bad:
             chk.die("engine process trouble: %s" % "\n".join("proc %d rc=%s\n%s" % b for b in bad))
         return chk.finish(prop, tier, seed, t0, outs, istats, a, components=COMPONENTS[prop], rule=RULE[prop])
